@@ -26,11 +26,16 @@ fuzz_target!(|data: &[u8]| {
         return;
     }
     let seed = u.arbitrary::<u32>().unwrap_or(0) as u64;
+    let origin = u.arbitrary::<u8>().unwrap_or(0) % 3;
+    let mut fills = vec![];
+    for _ in 0..(u.arbitrary::<u8>().unwrap_or(0) % 4) {
+        fills.push((u.arbitrary().unwrap_or(0), u.arbitrary().unwrap_or(true)));
+    }
     let mut sets = vec![];
     while !u.is_empty() && sets.len() < 64 {
         sets.push((u.arbitrary().unwrap_or(0), u.arbitrary().unwrap_or(0), u.arbitrary().unwrap_or(true)));
     }
-    let c = EditedCase { w, h, seed, sets };
+    let c = EditedCase { w, h, seed, sets, fills, origin };
     if let Err(m) = check_edited(&c, &mut st) {
         common::violation("C07", "edited", serde_json::to_value(&c).unwrap(), m);
     }
